@@ -23,8 +23,15 @@ def agent_trace(n, alpha: Fraction | None, eps: float, q0: Fraction, steps, seed
     from black_it.schedulers.rl.envs.mab import MABCalibrationEnv
 
     a_f = -1 if alpha is None else float(alpha)
-    ag = MABEpsilonGreedy(n_actions=n, alpha=a_f, eps=eps, initial_values=float(q0), random_state=seed)
-    twin = MABEpsilonGreedy(n_actions=n, alpha=a_f, eps=eps, initial_values=float(q0), random_state=seed)
+    # numbers as a user may write them: integer-valued options as Python ints (initial_values=0, alpha=1, eps=0/1)
+    as_int = seed % 2 == 0
+    iv = int(q0) if as_int and q0.denominator == 1 else float(q0)
+    if as_int and alpha is not None and alpha.denominator == 1:
+        a_f = int(alpha)
+    if as_int and float(eps) in (0.0, 1.0):
+        eps = int(eps)
+    ag = MABEpsilonGreedy(n_actions=n, alpha=a_f, eps=eps, initial_values=iv, random_state=seed)
+    twin = MABEpsilonGreedy(n_actions=n, alpha=a_f, eps=eps, initial_values=iv, random_state=seed)
     env = MABCalibrationEnv(nb_samplers=n)
     ref0 = Fraction(8)
     env._curr_best_loss = float(ref0)  # noqa: SLF001   (the scheduler sets the reference after the bootstrap batch)
